@@ -139,7 +139,19 @@ func keGenScript(tp *simcore.Tape, k int) *keScript {
 	}
 	if tp.Bool(1, 5, "unkrec") {
 		body := make([]byte, tp.Intn(40, "unklen"))
-		ins(keRecord{Type: uint16(100 + tp.Intn(1000, "unktype")), Critical: tp.Bool(1, 3, "unkcrit"), Body: body, Note: "unknown"})
+		typ := uint16(100 + tp.Intn(1000, "unktype"))
+		if tp.Bool(1, 3, "unkhigh") {
+			// anywhere in the 15-bit type space, also where the low bits spell a known type
+			typ = []uint16{0x4000, 0x1800, 0x0805, 0x2007, 0x7fff, 0x0800, 0x4005, 0x0806, 0x1004}[tp.Intn(9, "unkhightype")]
+		}
+		ins(keRecord{Type: typ, Critical: tp.Bool(1, 3, "unkcrit"), Body: body, Note: fmt.Sprintf("unknown(%#x)", typ)})
+	}
+	if tp.Bool(1, 8, "aead-again") {
+		// a second algorithm record, or one that lists several algorithms: a response selects
+		// exactly one, and the one that counts has to be AES-SIV-CMAC-256
+		body := [][]byte{u16(17), u16(15), {0, 17, 0, 15}, {0, 15, 0, 30}, {}}[tp.Intn(5, "aead2")]
+		ins(keRecord{Type: 4, Critical: true, Body: body, Note: fmt.Sprintf("aead%v", body)})
+		s.desc += "aead-again "
 	}
 	if tp.Bool(1, 8, "shuffle") {
 		for i := len(recs) - 1; i > 0; i-- {
@@ -166,7 +178,7 @@ func keGenScript(tp *simcore.Tape, k int) *keScript {
 	}
 	// what the statement allows
 	ok := len(s.alpn) == 1 && s.alpn[0] == keALPN
-	sawEOM, sawAEAD15 := false, false
+	sawEOM, sawAEAD15, malformed := false, false, false
 	for _, rc := range recs {
 		if rc.Type == 0 {
 			sawEOM = true
@@ -180,6 +192,12 @@ func keGenScript(tp *simcore.Tape, k int) *keScript {
 			s.ambiguous = true
 		case 4:
 			sawAEAD15 = len(rc.Body) == 2 && rc.Body[0] == 0 && rc.Body[1] == keAEAD15
+			if len(rc.Body) != 2 {
+				// a response selects exactly one algorithm: a record that lists none or several does
+				// not select AES-SIV-CMAC-256, whatever follows it
+				ok = false
+				malformed = true
+			}
 		case 5:
 			s.cookies = append(s.cookies, rc.Body)
 		case 6, 7:
@@ -190,7 +208,7 @@ func keGenScript(tp *simcore.Tape, k int) *keScript {
 		}
 		s.desc += rc.Note + " "
 	}
-	if !sawEOM || !sawAEAD15 || len(s.cookies) == 0 {
+	if !sawEOM || !sawAEAD15 || len(s.cookies) == 0 || malformed {
 		ok = false
 	}
 	if s.cutAt >= 0 {
